@@ -127,6 +127,19 @@ def execute(program, solve=True, oracle=True, horizon=None, stop_before_main=Fal
                 if st.get('long_name'):
                     kw['long_name'] = st['long_name']
                 b.countries[st['code']] = cls(model, st['code'], **kw)
+            elif op == 'Book':
+                # the model is put together by a bundled gl_book builder
+                import importlib
+                mod = importlib.import_module('sfc_models.gl_book.' + st['module'])
+                builder = getattr(mod, st['cls'])(country_code=st.get('country_code', 'C'),
+                                                  use_book_exogenous=st.get('book_exogenous', True))
+                model = builder.build_model()
+                b.model = model
+                for c in model.CountryList:
+                    code = 'EXT' if isinstance(c, ExternalSector) else c.Code
+                    b.countries[code] = c
+                    for s in c.GetSectors():
+                        b.sectors[code + '.' + s.Code] = s
             elif op == 'External':
                 ext = ExternalSector(model)
                 b.countries['EXT'] = ext
